@@ -1,56 +1,31 @@
 #!/bin/sh
-# Self-test of the checks: every patch under selftest/mutants/<ID>/ must make
-# `./check <ID>` report a VIOLATION (exit 1); every patch under selftest/neutral/
-# must leave the listed checks silent (exit 0). Patches are applied to a scratch
-# git worktree of /repo under /tmp, which is removed afterwards.
-# usage: selftest/run.sh [ID ...]        (default: all)
+# Self-test of the checks: every patch under selftest/mutants/<ID>/ and every seeded change
+# (seeded/<ID>-<name>/patch.diff) must make `./check <ID>` report a VIOLATION (exit 1); every patch
+# under selftest/neutral/ (header line "# checks: <IDs>") must leave the listed checks silent
+# (exit 0). Patches are applied to scratch git worktrees of /repo under /tmp, removed afterwards.
+# usage: [JOBS=n] selftest/run.sh [ID ...]     (default: all; mutants run JOBS at a time, default 3;
+#        neutral patches run one at a time so that solver timeouts are not provoked by contention)
 set -u
 cd "$(dirname "$0")/.."
-export GOFLAGS=-mod=mod GOPROXY=off GOSUMDB=off GOTOOLCHAIN=local
 ids="$*"
-fail=0
-run_one() { # kind id patch
-  kind=$1; id=$2; patch=$3
-  wt=$(mktemp -d /tmp/govc-st-XXXXXX)
-  rmdir "$wt"
-  git -C /repo worktree add -q --detach "$wt" HEAD || return 2
-  if ! git -C "$wt" apply "$patch" 2>/dev/null; then
-    echo "SELFTEST-ERROR $kind $id $(basename $patch): patch does not apply"; git -C /repo worktree remove --force "$wt"; return 2
-  fi
-  if ! (cd "$wt" && go build ./... >/dev/null 2>&1); then
-    echo "SELFTEST-ERROR $kind $id $(basename $patch): does not compile"; git -C /repo worktree remove --force "$wt"; return 2
-  fi
-  out=$(bin/govc check -prop "$id" -repo "$wt" -no-evidence 2>&1); rc=$?
-  git -C /repo worktree remove --force "$wt"
-  if [ "$kind" = mutant ]; then
-    if [ $rc -eq 1 ] && echo "$out" | grep -q "^VIOLATION property=$id "; then
-      echo "ok   mutant  $id $(basename $patch): $(echo "$out" | grep -c '^VIOLATION') violation(s): $(echo "$out" | grep '^VIOLATION' | head -1 | sed 's/.*obligation=//' | cut -c1-110)"
-    else
-      echo "MISS mutant  $id $(basename $patch): exit $rc"; echo "$out" | tail -3; return 1
-    fi
-  else
-    if [ $rc -eq 0 ]; then echo "ok   neutral $id $(basename $patch)"; else echo "ALARM neutral $id $(basename $patch): exit $rc"; echo "$out" | tail -5; return 1; fi
-  fi
-}
+want() { [ -z "$ids" ] || echo " $ids " | grep -q " $1 "; }
+tasks=$(mktemp /tmp/govc-tasks-XXXXXX)
 for d in selftest/mutants/*/; do
-  id=$(basename "$d")
-  if [ -n "$ids" ] && ! echo " $ids " | grep -q " $id "; then continue; fi
-  for p in "$d"*.patch; do [ -f "$p" ] || continue; run_one mutant "$id" "$PWD/$p" || fail=1; done
+  id=$(basename "$d"); want "$id" || continue
+  for p in "$d"*.patch; do [ -f "$p" ] && echo "mutant $id $PWD/$p" >> "$tasks"; done
 done
-# the changes seeded by independent sub-agents (seeded/<ID>-<name>/patch.diff) are must-fail too
 for d in seeded/*/; do
-  id=$(basename "$d" | cut -d- -f1)
-  if [ -n "$ids" ] && ! echo " $ids " | grep -q " $id "; then continue; fi
-  [ -f "$d/patch.diff" ] || continue
-  cp "$d/patch.diff" "/tmp/govc-seed-$(basename $d).patch"
-  run_one mutant "$id" "/tmp/govc-seed-$(basename $d).patch" || fail=1
-  rm -f "/tmp/govc-seed-$(basename $d).patch"
+  id=$(basename "$d" | cut -d- -f1); want "$id" || continue
+  [ -f "$d/patch.diff" ] && echo "mutant $id $PWD/${d}patch.diff" >> "$tasks"
 done
+fail=0
+xargs -P "${JOBS:-3}" -L1 selftest/one.sh < "$tasks" || fail=1
+rm -f "$tasks"
 for p in selftest/neutral/*.patch; do
   [ -f "$p" ] || continue
   for id in $(sed -n 's/^# checks: //p' "$p"); do
-    if [ -n "$ids" ] && ! echo " $ids " | grep -q " $id "; then continue; fi
-    run_one neutral "$id" "$PWD/$p" || fail=1
+    want "$id" || continue
+    selftest/one.sh neutral "$id" "$PWD/$p" || fail=1
   done
 done
 exit $fail
